@@ -95,7 +95,12 @@ impl Interval {
 
     /// Returns the quadrant for trigonometric functions
     fn quadrant(angle: f32) -> Quadrant {
-        match (angle * 2.0 / PI).floor().rem_euclid(4.0) as u8 {
+        // Computed in f64: in f32 the quotient loses the quadrant for angles
+        // beyond ~1e5, which made sin / cos unsound (or panic) there
+        let angle = f64::from(angle);
+        match (angle * 2.0 / std::f64::consts::PI).floor().rem_euclid(4.0)
+            as u8
+        {
             0 => Quadrant::Q0,
             1 => Quadrant::Q1,
             2 => Quadrant::Q2,
